@@ -30,6 +30,39 @@ O = _dt.timedelta(hours=2)          # offset before the transition
 US = _dt.timedelta(microseconds=1)
 
 
+class Zone(_dt.tzinfo):
+    """the zone of a scenario as a tzinfo object (so that standard-library datetimes can carry it): utcoffset / fromutc / convert answer
+    from the scenario's transition"""
+
+    def __init__(self, world):
+        self._world, self.name = world, "Scenario/Zone"
+
+    def utcoffset(self, native):
+        return self._world._tz_utcoffset(native)
+
+    def dst(self, native):
+        return _dt.timedelta(0)
+
+    def tzname(self, native):
+        return self.name
+
+    def fromutc(self, native):
+        # the tzinfo contract: `native` carries this zone and the UTC clock; the answer is the wall time of that instant, in this zone
+        if native.tzinfo is not self:
+            raise ValueError("fromutc: dt.tzinfo is not self")
+        w, f = self._world.from_instant(native.replace(tzinfo=None))
+        return w.replace(fold=f, tzinfo=self)
+
+    def convert(self, native, raise_on_unknown_times=False):
+        return self._world._tz_convert(native, raise_on_unknown_times)
+
+    def datetime(self, *a, **k):
+        raise core.Unsupported("tz.datetime() in the scenario world")
+
+    def __reduce__(self):
+        return (object, ())
+
+
 class World:
     _STATIC: dict[tuple[int, str], tuple] = {}
 
@@ -41,7 +74,7 @@ class World:
         key = (id(m), cls)
         if key not in World._STATIC:
             meths: dict[str, ast.FunctionDef] = dict(extra or {})
-            meths.update(m.methods(cls))
+            meths.update(m.methods_mro(cls))         # base classes of other modules included (mixins): found where Python finds them
             props = {k for k, f in meths.items() if any(core.dotted(d) == "property" for d in f.decorator_list)}
             consts = minieval.module_consts(m)
             funcs = {st.name: st for st in m.top() if isinstance(st, ast.FunctionDef)}
@@ -55,7 +88,7 @@ class World:
                         pass
             World._STATIC[key] = (m, meths, props, consts, funcs, fields)
         _, self.meths, self.props, consts, funcs, self.class_fields = World._STATIC[key]
-        self.tz = Stub(name="Scenario/Zone", _eqkey="tz", utcoffset=self._tz_utcoffset, convert=self._tz_convert)
+        self.tz = Zone(self)
         if interpret_add:
             import math
             hm = core.pmod("helpers")
@@ -64,14 +97,14 @@ class World:
                      "is_leap": lambda y: y % 4 == 0 and (y % 100 != 0 or y % 400 == 0), "DAYS_PER_MONTHS": core.const("constants", "DAYS_PER_MONTHS"),
                      "RuntimeError": ValueError, "ValueError": ValueError}
             self._add_duration = (hfuncs["add_duration"], {**hfuncs, "$globals": hglob})
-        self.ctor = ClassStub(_new=self._construct, _isa=lambda v: isinstance(v, Obj), create=self._create, instance=self._instance)
+        self.ctor = ClassStub(_new=self._construct, _isa=lambda v: isinstance(v, Obj), create=self._create, instance=self._instance, _methods=lambda: self.meths, _funcs=None)
         self.glob: dict[str, Any] = dict(funcs)
         if interpret_add:
             self.glob["add_duration"] = self._add_duration
         pend = Stub(datetime=self._create, date=lambda y, mo, d: self.date(_dt.date(y, mo, d)), instance=self._instance,
                     DateTime=self.ctor, Date=self.ctor, _WEEK_STARTS_AT=week[0], _WEEK_ENDS_AT=week[1])
         self.glob["$globals"] = {**consts, "WeekDay": WEEKDAY, "pendulum": pend, "ValueError": ValueError, "int": int, "str": str,
-                                 "calendar": Stub(monthcalendar=_calendar.monthcalendar, monthrange=_calendar.monthrange),
+                                 "calendar": minieval.std_module("calendar"),
                                  "datetime": Stub(datetime=_dt.datetime, timedelta=_dt.timedelta, date=_dt.date, time=_dt.time, timezone=_dt.timezone),
                                  "DateTime": self.ctor, "Date": self.ctor, "UTC": _dt.timezone.utc, "date": _dt.date, "timedelta": _dt.timedelta, "any": any}
 
@@ -133,6 +166,9 @@ class World:
         if native.tzinfo is _dt.timezone.utc:          # an instant: astimezone semantics
             w, f = self.from_instant(native.replace(tzinfo=None))
             return w.replace(fold=f)
+        if native.tzinfo is self.tz:                     # already in this zone: the same instant, re-read
+            w, f = self.from_instant(native.replace(tzinfo=None) - self.offset(native.replace(tzinfo=None, fold=0), native.fold))
+            return w.replace(fold=f)
         if native.tzinfo is None:                        # a wall time to be normalised
             w = native.replace(fold=0)
             if self.skipped(w):
@@ -153,7 +189,7 @@ class World:
         tzinfo = f.pop("tzinfo", None)
         w = _dt.datetime(**{n: f.get(n, 0) for n in names[:7]})
         if tzinfo is not self.tz:
-            return self.datetime(w, fold, zone=tzinfo if isinstance(tzinfo, Stub) else self.other_zone(tzinfo))
+            return self.datetime(w, fold, zone=tzinfo if isinstance(tzinfo, (Stub, Zone)) else self.other_zone(tzinfo))
         if self.skipped(w):
             raise core.Unsupported("DateTime(...) constructed directly on a skipped wall time")
         return self.datetime(w, fold)
@@ -237,7 +273,8 @@ class World:
                  day_of_week=WEEKDAYS[w.weekday()], quarter=(w.month - 1) // 3 + 1, days_in_month=_calendar.monthrange(w.year, w.month)[1],
                  tz=zone, tzinfo=zone, timezone=zone, timezone_name=getattr(zone, "name", ""),
                  set=set_, replace=replace, on=on, at=at, **({} if (own and self.interpret_add) else dict(add=add, subtract=subtract)),
-                 utcoffset=lambda: wd.offset(w, fold), naive=lambda: Stub(_eqkey=(w,), _wall=w),
+                 utcoffset=lambda: wd.offset(w, fold), dst=lambda: _dt.timedelta(0),      # (the transition of a scenario is a change of the standard offset: no daylight saving time on either side)
+                 naive=lambda: Stub(_eqkey=(w,), _wall=w),
                  timestamp=lambda: (wd.instant(me) - _dt.datetime(1970, 1, 1)).total_seconds() if zone is wd.tz else (_ for _ in ()).throw(core.Unsupported("timestamp() in another zone")),
                  astimezone=lambda tz=None: (wd.instant(me).replace(tzinfo=_dt.timezone.utc) if tz is _dt.timezone.utc and zone is wd.tz
                                              else (_ for _ in ()).throw(core.Unsupported("astimezone() to another zone than UTC in the scenario world"))),
@@ -257,9 +294,9 @@ class TimeWorld:
 
     def __init__(self, m: core.Mod):
         self.m = m
-        self.meths = m.methods("Time")
+        self.meths = m.methods_mro("Time")
         self.props = {k for k, f in self.meths.items() if any(core.dotted(d) == "property" for d in f.decorator_list)}
-        self.ctor = ClassStub(_new=self._construct, _isa=lambda v: isinstance(v, Obj) and "_tod" in vars(v))
+        self.ctor = ClassStub(_new=self._construct, _isa=lambda v: isinstance(v, Obj) and "_tod" in vars(v), _methods=lambda: self.meths, _funcs=None)
         dm = core.pmod("datetime")
         self.dtw = World(dm, "DateTime", extra=core.pmod("date").methods("Date"), base_offset=_dt.timedelta(0))
         consts = minieval.module_consts(m)
@@ -269,7 +306,8 @@ class TimeWorld:
                 if a or set(k) - {"microseconds", "seconds"}:
                     raise core.Unsupported(f"{kind}{a}{k}")
                 us = k.get("microseconds", 0) + k.get("seconds", 0) * 10**6
-                return Stub(_kind=kind, _us=us, total_seconds=lambda: (abs(us) if kind == "AbsoluteDuration" else us) / 10**6,
+                # (compared as the timedelta it is: by its native value, which keeps the sign for the absolute class too)
+                return Stub(_kind=kind, _us=us, _eqkey=us, _types=(_dt.timedelta,), _native=_dt.timedelta(microseconds=us), total_seconds=lambda: (abs(us) if kind == "AbsoluteDuration" else us) / 10**6,
                             in_seconds=lambda: int((abs(us) if kind == "AbsoluteDuration" else us) / 10**6))
             return ClassStub(_new=mk, _isa=lambda v: isinstance(v, Stub) and getattr(v, "_kind", None) in (("Duration", "AbsoluteDuration") if kind == "Duration" else (kind,)))
         self.glob: dict[str, Any] = {st.name: st for st in m.top() if isinstance(st, ast.FunctionDef)}
